@@ -112,8 +112,10 @@ def rule_c(ctx):
                       mentions(e, lambda x: x[0] == "downcast") for e in ex)
             ctx.check(okk, rid, "cleanup:arg-is-item", "the id passed to unregister is the loop item", t["sp"], [show(e) for e in ex])
     # add_signal: stored value is the result of the registration
-    for h in F.some("signal_hook::iterator::backend::Handle::add_signal"):
-        ctx.fn(h)
+    from .nf import NF
+    for h0 in F.some("signal_hook::iterator::backend::Handle::add_signal"):
+        ctx.fn(h0)
+        h = NF(F, h0)
         stores = []
         for bb, bl in enumerate(h.blocks):
             for si, s in enumerate(bl["s"]):
@@ -198,8 +200,10 @@ def rule_e(ctx):
     rid = "C12.e"
     ctx.rule(rid, "re-adding a watched signal is a no-op: the registration is control-dependent on the table entry for the same "
                   "index being None; the entry is written only after the registration returned Ok, under the same index", floor=3)
-    for h in F.some("signal_hook::iterator::backend::Handle::add_signal"):
-        ctx.fn(h)
+    from .nf import NF
+    for h0 in F.some("signal_hook::iterator::backend::Handle::add_signal"):
+        ctx.fn(h0)
+        h = NF(F, h0)
         regs = [(bb, t) for bb, t in h.calls() if t.get("f") is not None and
                 re.search(r"AddSignal>::add_signal", F.inst[t["f"]].name)]
         if not regs:
@@ -278,23 +282,47 @@ def rule_f(ctx, rid="C12.f"):
     ctx.rule(rid, "Handle::add_signal holds the id-table mutex from the check through the registration to the recording of the id (one "
                   "acquisition; the registration call and the table write lie inside its critical section)", floor=2)
     L = lockinfo(F)
-    for h in F.some("signal_hook::iterator::backend::Handle::add_signal"):
-        ctx.fn(h)
-        acq = [a for a in L.acqs if a.inst.id == h.id and IDS_LOCK in a.lock and a.kind == "direct"]
-        # acquisitions through a workspace helper returning the guard count as well
-        acq_w = [a for a in L.acqs if a.inst.id == h.id and IDS_LOCK in a.lock]
+    from .nf import NF
+    for h0 in F.some("signal_hook::iterator::backend::Handle::add_signal"):
+        ctx.fn(h0)
+        h = NF(F, h0)
+        acqs, regions = L.analyse_body(h)
+        acq_w = [(bb, lid) for (bb, lid, kind) in acqs if IDS_LOCK in lid]
         n = len(acq_w)
-        ctx.check(n == 1, rid, "one-acquisition", "the id table is locked exactly once in add_signal (%d acquisition(s))" % n, h.span,
-                  [h.term(a.bb)["sp"] for a in acq_w])
+        ctx.check(n == 1, rid, "one-acquisition", "the id table is locked exactly once in add_signal (%d acquisition(s))" % n, h0.span,
+                  [h.term(bb)["sp"] for bb, _ in acq_w])
         if n < 1:
             continue
-        lock = acq_w[0].lock
-        reg = L.regions.get((h.id, lock), set())
+        lock = acq_w[0][1]
+        reg = regions.get(lock, set())
         regs = [(bb, t) for bb, t in h.calls() if t.get("f") is not None and re.search(r"AddSignal>::add_signal", F.inst[t["f"]].name)]
-        writes = [(bb, t) for bb, t in h.calls() if t.get("f") is not None and "IndexMut" in F.inst[t["f"]].name]
-        okk = bool(regs) and all(bb in reg for bb, _ in regs) and bool(writes) and all(bb in reg for bb, _ in writes)
-        ctx.check(okk and n == 1, rid, "register-and-record-under-lock", "registration and recording happen while that lock is held", regs[0][1]["sp"] if regs else h.span,
-                  {"registration_under_lock": [bb in reg for bb, _ in regs], "record_under_lock": [bb in reg for bb, _ in writes]})
+        writes = _table_writes(h)
+        okk = bool(regs) and all(bb in reg for bb, _ in regs) and bool(writes) and all(bb in reg for bb, _, _ in writes)
+        ctx.check(okk and n == 1, rid, "register-and-record-under-lock", "registration and recording happen while that lock is held", regs[0][1]["sp"] if regs else h0.span,
+                  {"registration_under_lock": [bb in reg for bb, _ in regs], "record_under_lock": [bb in reg for bb, _, _ in writes]})
+
+
+def _table_writes(h):
+    """assignments through the reference an IndexMut call on the id table returned: [(bb, stmt index, IndexMut call blocks)]"""
+    out = []
+    fl = flow(h)
+    for wbb, bl in enumerate(h.blocks):
+        if bl.get("dead"):
+            continue
+        for si, st in enumerate(bl["s"]):
+            if st["k"] != "assign" or not st["l"]["p"] or st["l"]["p"][0]["k"] != "deref" or "SigId" not in h.local_ty(st["l"]["l"]):
+                continue
+            base = fl.local(st["l"]["l"], (wbb, si))
+            im = set()
+            for e in base:
+                def grab2(x):
+                    if x[0] == "call" and x[3] and "IndexMut" in x[3]:
+                        im.add(x[1])
+                    return False
+                mentions(e, grab2)
+            if im:
+                out.append((wbb, si, im))
+    return out
 
 
 def run(ctx):
